@@ -122,3 +122,114 @@ def sym_like(ift, dom, name, **assump):
     if isinstance(dom, ift.MultiDomain):
         return ift.MultiField.from_dict({k: sym_field(ift, dom[k], f"{name}{k}", **assump)[0] for k in dom.keys()})
     return sym_field(ift, dom, name, **assump)[0]
+
+
+# ---------------------------------------------------------------------------------------------- sampling on symbols
+class SXNoise:
+    """white-noise sources as sympy symbols: Random.normal is re-bound to fresh real symbols xi_k (unit variance, independent).
+    A sample is then a linear form in the xi; its covariance is C C^T with C the coefficient matrix (lemma L-COV)."""
+
+    def __init__(self):
+        self.src = []
+
+    def normal(self, dtype, shape, mean=0., std=1.):
+        if np.issubdtype(np.dtype(dtype), np.complexfloating):
+            from . import symx
+            raise symx.EngineLimit("complex white noise is not modelled for sympy elements")
+        n = int(np.prod(shape, dtype=int))
+        a = np.empty(n, dtype=object)
+        for i in range(n):
+            s = sp.Symbol(f"xi{len(self.src)}", real=True)
+            self.src.append(s)
+            a[i] = SX(s * std + mean) if (std != 1. or mean != 0.) else SX(s)
+        return a.reshape(shape)
+
+    def coefficient_matrix(self, es):
+        """(constant terms, C) with es[i] == const[i] + sum_k C[i,k] xi_k; raises if an entry is not linear in the sources"""
+        rows, consts = [], []
+        zero = {s: 0 for s in self.src}
+        for e in es:
+            e = sp.expand(sp.sympify(e))
+            row = [sp.diff(e, s) for s in self.src]
+            if any(r.has(*self.src) for r in row if self.src):
+                raise ValueError(f"not linear in the noise sources: {e}")
+            rows.append(row)
+            consts.append(sp.simplify(e.subs(zero)))
+        return consts, sp.Matrix(rows) if rows else sp.zeros(0, 0)
+
+
+def flatten_field(f):
+    return flat(f)
+
+
+def unflatten_like(ift, dom, es):
+    """Field/MultiField on dom from a flat list of sympy expressions (canonical order of flat())"""
+    def mk(dt, chunk):
+        arr = np.empty(len(chunk), dtype=object)
+        for i, e in enumerate(chunk):
+            arr[i] = SX(e)
+        return ift.Field(dt, arr.reshape(dt.shape))
+    if isinstance(dom, ift.MultiDomain):
+        out, pos = {}, 0
+        for k in sorted(dom.keys()):
+            n = int(np.prod(dom[k].shape, dtype=int))
+            out[k] = mk(dom[k], es[pos:pos + n])
+            pos += n
+        return ift.MultiField.from_dict(out, domain=dom)
+    return mk(dom, es)
+
+
+def dense_matrix(ift, op, mode="times"):
+    """sympy Matrix of a linear operator (rows: flat target, columns: flat domain), by applying it to unit vectors"""
+    dom = op.domain if mode in ("times", "inverse_times") else op.target
+    n = sum(int(np.prod(dom[k].shape, dtype=int)) for k in dom.keys()) if isinstance(dom, ift.MultiDomain) else int(np.prod(dom.shape, dtype=int))
+    cols = []
+    for i in range(n):
+        e = [sp.Integer(0)] * n
+        e[i] = sp.Integer(1)
+        cols.append(flat(getattr(op, mode)(unflatten_like(ift, dom, e))))
+    return sp.Matrix([[cols[j][i] for j in range(n)] for i in range(len(cols[0]))]) if cols else sp.zeros(0, 0)
+
+
+class ExactCG:
+    """stands for ConjugateGradient under assumption A-CGEXACT: returns the exact minimiser A^-1 b of the quadratic energy"""
+    ift = None
+
+    def __init__(self, controller=None, nreset=20):
+        pass
+
+    def __call__(self, energy, preconditioner=None):
+        ift = ExactCG.ift
+        A, b = energy._A, energy._b
+        M = dense_matrix(ift, A)
+        x = M.LUsolve(sp.Matrix(flat(b)))
+        x = [sp.simplify(e) for e in x]
+        return energy.at(unflatten_like(ift, A.domain, x)), 0
+
+
+import contextlib  # noqa: E402
+
+
+@contextlib.contextmanager
+def np_proxy(module, **overrides):
+    """inside the context `module.np` is a proxy of NumPy with the given functions replaced (e.g. isnan -> False, A-REAL)"""
+    real_np = module.np
+
+    class _NP:
+        def __getattr__(self, name):
+            return getattr(real_np, name)
+    prox = _NP()
+    for k, v in overrides.items():
+        setattr(prox, k, v)
+    module.np = prox
+    try:
+        yield
+    finally:
+        module.np = real_np
+
+
+def isnan_real(x):
+    """A-REAL: symbolic reals are never NaN"""
+    if isinstance(x, SX) or (isinstance(x, np.ndarray) and x.dtype == object):
+        return False
+    return np.isnan(x)
